@@ -8,6 +8,7 @@ import (
 	"regexp"
 	"sort"
 	"strings"
+	"sync"
 	"testing"
 	"time"
 
@@ -190,10 +191,16 @@ func runC17(c c17Case) (fail string, stats map[string]bool) {
 	w := NewWorld(o)
 	defer w.Teardown()
 	var events []hdrEvent
+	var evMu sync.Mutex
 	w.hdrHook = func(name string, _ map[string][]string, req *types.HttpContext) {
+		// called from handler and writer goroutines
+		evMu.Lock()
 		events = append(events, hdrEvent{name, req.Request()})
+		evMu.Unlock()
 	}
 	count := func(name string, req *http.Request) int {
+		evMu.Lock()
+		defer evMu.Unlock()
 		n := 0
 		for _, e := range events {
 			if e.name == name && e.req == req {
